@@ -6,6 +6,7 @@ import (
 	"fmt"
 	"log/slog"
 	"math"
+	"reduction.dev/reduction/util/verifhook"
 	"sync/atomic"
 	"time"
 
@@ -199,6 +200,7 @@ func (r *SourceRunner) HandleDeploy(ctx context.Context, msg *workerpb.DeploySou
 	}
 
 	r.watermarkTicker = time.NewTicker(time.Millisecond * 200)
+	verifhook.Tune("sourcerunner.watermark_ticker", &r.watermarkTicker)
 
 	deploymentCtx, cancel := context.WithCancel(context.Background())
 	r.stopLoop = cancel
